@@ -330,6 +330,14 @@ def run(ctx):
     epm = A.methods.get("enable_pool")
     ev, ret = fold(repo, epm, A, max_depth=0)
     okh = any(e.callee.startswith("new:aspire.utils:PoolHandler") and e.args and e.args[0] == SELF for e in ev.events)
+    # every call hands out a handler of its own: a handler kept on the instance and handed out again is entered twice by two nested
+    # `with aspire.enable_pool(pool)` blocks, and its second __enter__ overwrites the originals the first one saved
+    news_ = {e.result for e in ev.events if e.callee.startswith("new:aspire.utils:PoolHandler")}
+    leaves_ = [l_ for l_ in T.phi_leaves(T.strip_raise(ret))]
+    fresh_ = bool(leaves_) and all(l_ in news_ for l_ in leaves_)
+    ctx.decide(fresh_, "C19.ph", epm.ident, loc_of(epm), "every enable_pool() call returns a new handler",
+               f"enable_pool can return {T.show([l_ for l_ in leaves_ if l_ not in news_][0])[:60] if leaves_ and not fresh_ else 'something else'} instead of a new handler: two nested blocks then enter the "
+               "same handler object, the inner __enter__ saves the pool-aware callables as 'originals', and after both exits the instance is left with the pool-bound likelihood", disc="fresh-handler")
     ctx.decide(okh, "C19.ph", epm.ident, loc_of(epm), "enable_pool returns a PoolHandler bound to this instance", "enable_pool does not bind the handler to this instance", disc="bind")
 
 
@@ -379,6 +387,9 @@ MUTANTS += [
 ]
 MUTANTS += [
     M("entry also resets a book-keeping attribute that is never put back", _A, "prev = getattr(self, \"_checkpoint_defaults\", None)\n        self._checkpoint_defaults = {", "prev = getattr(self, \"_checkpoint_defaults\", None)\n        self._checkpoint_saved = {\"config\": False}\n        self._checkpoint_defaults = {", "C19.ac"),
+]
+MUTANTS += [
+    M("enable_pool hands back the handler it already has", _A, "return PoolHandler(self, pool, **kwargs)", "handler = getattr(self, \"pool_handler\", None)\n        if handler is not None and handler.pool is pool:\n            return handler\n        self.pool_handler = PoolHandler(self, pool, **kwargs)\n        return self.pool_handler", "C19.ph"),
 ]
 NEUTRALS = [
     M("clean-up logs before and does work after the restore", _A, "finally:\n            if prev is None:\n                if hasattr(self, \"_checkpoint_defaults\"):\n                    delattr(self, \"_checkpoint_defaults\")\n            else:\n                self._checkpoint_defaults = prev",
